@@ -6,6 +6,7 @@ See for example: http://www.6502.org/tutorials/6502opcodes.html
 from ..isa import Isa
 from ..encoding import Instruction, Syntax, Operand, Constructor, Relocation
 from ..token import Token, bit_range
+from ...utils.bitfun import wrap_negative
 
 
 isa = Isa()
@@ -141,7 +142,7 @@ class RelativeRelocation(Relocation):
     name = "rel8"
 
     def calc(self, sym_value, reloc_value):
-        return sym_value - (reloc_value + 1)
+        return wrap_negative(sym_value - (reloc_value + 1), 8)
 
 
 class RelativeLabel(Constructor):
